@@ -185,7 +185,7 @@ Qed.
 
 Definition finish_closed (s : st) (o : outcome) : st :=
   if disconnected s then s
-  else set_evq (set_disconnected s) (evq s ++ map (fun e => (snd e, o)) (table s)).
+  else set_evq (set_disconnected s) (evq s ++ map (fun e => EFail (snd e) o) (table s)).
 
 Lemma finish_step_closed s o : finish_step s o = finish_closed s o.
 Proof.
@@ -214,10 +214,10 @@ Record Inv0 (s : st) : Prop := {
 }.
 
 Definition Disc (s : st) : Prop :=
-  disconnected s = true -> forall rid h, In (rid, h) (table s) -> exists o, In (h, o) (evq s).
+  disconnected s = true -> forall rid h, In (rid, h) (table s) -> exists o, In (EFail h o) (evq s).
 
 (* the eventual queue only ever holds failures queued by finish() *)
-Definition Quiet (s : st) : Prop := disconnected s = false -> evq s = [].
+Definition Quiet (s : st) : Prop := disconnected s = false -> forall h o, ~ In (EFail h o) (evq s).
 
 Definition Inv (s : st) : Prop := Inv0 s /\ Disc s /\ Quiet s.
 
@@ -306,6 +306,9 @@ Proof.
 Qed.
 
 Lemma inv0_bump s : Inv0 s -> Inv0 (bump_raised s).
+Proof. intros I. destruct I. split; auto. Qed.
+
+Lemma inv0_set_batch s b : Inv0 s -> Inv0 (set_batch s b).
 Proof. intros I. destruct I. split; auto. Qed.
 
 Lemma inv0_set_evq s q : Inv0 s -> Inv0 (set_evq s q).
@@ -433,6 +436,18 @@ Proof.
   apply inv0_set_evq. apply inv0_set_disc. exact I.
 Qed.
 
+(* one iteration of _turn under the translated turn_mode_of_source *)
+Lemma turn_cases s :
+  (evq s = [] /\ turn_step s = set_batch s 0) \/
+  (exists h o q b, evq s = EFail h o :: q /\ turn_step s = fail_closed (set_batch (set_evq s q) b) h o) \/
+  (exists r q b, evq s = EForeign r :: q /\ turn_step s = set_batch (set_evq s q) b).
+Proof.
+  unfold turn_step, turn_mode_of_source. destruct (evq s) as [|[h o|r] q] eqn:Q.
+  - left. auto.
+  - right. left. eexists h, o, q, _. split; [reflexivity|]. rewrite fail_step_closed. reflexivity.
+  - right. right. eexists r, q, _. split; [reflexivity|]. destruct r; reflexivity.
+Qed.
+
 Lemma inv0_step s x : Inv0 s -> Inv0 (step s x).
 Proof.
   intros I. destruct x; cbn [step].
@@ -443,7 +458,11 @@ Proof.
   - rewrite complete_step_closed. apply inv0_complete; auto.
   - rewrite fail_step_closed. apply inv0_fail; auto.
   - rewrite finish_step_closed. apply inv0_finish; auto.
-  - destruct (evq s) as [|[h o] q]; auto. rewrite fail_step_closed. apply inv0_fail. apply inv0_set_evq. auto.
+  - apply inv0_set_evq. auto.
+  - destruct (turn_cases s) as [[_ ->]|[[h [o [q [b [_ ->]]]]]|[r [q [b [_ ->]]]]]].
+    + apply inv0_set_batch. auto.
+    + apply inv0_fail. apply inv0_set_batch. apply inv0_set_evq. auto.
+    + apply inv0_set_batch. apply inv0_set_evq. auto.
 Qed.
 
 (* ---------- frame facts *)
@@ -497,20 +516,24 @@ Proof.
   - rewrite finish_step_closed. unfold finish_closed. destruct (disconnected s) eqn:Hd; auto.
     intros _ rid h He. cbn in *. exists (reason_outcome r). apply in_app_iff. right.
     apply in_map_iff. exists (rid, h). auto.
-  - destruct (evq s) as [|[h o] q] eqn:Q; auto. rewrite fail_step_closed.
-    intros Hd rid h' He.
-    destruct (frame_fail (set_evq s q) h o) as [E1 [E2 [_ [_ Sub]]]].
-    rewrite E1 in Hd. rewrite E2. cbn [disconnected evq set_evq table] in *.
-    pose proof (Sub _ He) as He0.
-    destruct (D Hd rid h' He0) as [o' Ho']. rewrite Q in Ho'. destruct Ho' as [X|X]; [|eauto].
-    inversion X; subst h' o'. exfalso.
-    destruct (I_tbl _ I _ _ He0) as [c [G [R [T A]]]].
-    pose proof (I_pend _ I _ _ G T A) as P.
-    unfold fail_closed in He. rewrite get_set_table in He || idtac.
-    change (get (set_evq s q) h) with (get s h) in He. rewrite G, A, T in He.
-    cbn [table set_evq] in He.
-    assert (Hh : tbl_has (c_rid c) (table s) = true) by (apply tbl_has_true; apply in_map_iff; exists (c_rid c, h); auto).
-    rewrite Hh in He. cbn in He. apply tbl_del_in in He as [_ N]. cbn in N. congruence.
+  - intros Hd rid h He. cbn in *. destruct (D Hd rid h He) as [o Ho]. exists o. apply in_app_iff. auto.
+  - destruct (turn_cases s) as [[_ ->]|[[h [o [q [b [Q ->]]]]]|[r [q [b [Q ->]]]]]].
+    + exact D.
+    + intros Hd rid h' He.
+      destruct (frame_fail (set_batch (set_evq s q) b) h o) as [E1 [E2 [_ [_ Sub]]]].
+      rewrite E1 in Hd. rewrite E2. cbn [disconnected evq set_evq set_batch table] in *.
+      pose proof (Sub _ He) as He0.
+      destruct (D Hd rid h' He0) as [o' Ho']. rewrite Q in Ho'. destruct Ho' as [X|X]; [|eauto].
+      inversion X; subst h' o'. exfalso.
+      destruct (I_tbl _ I _ _ He0) as [c [G [R [T A]]]].
+      pose proof (I_pend _ I _ _ G T A) as P.
+      unfold fail_closed in He.
+      change (get (set_batch (set_evq s q) b) h) with (get s h) in He. rewrite G, A, T in He.
+      cbn [table set_evq set_batch] in He.
+      assert (Hh : tbl_has (c_rid c) (table s) = true) by (apply tbl_has_true; apply in_map_iff; exists (c_rid c, h); auto).
+      rewrite Hh in He. cbn in He. apply tbl_del_in in He as [_ N]. cbn in N. congruence.
+    + intros Hd rid h He. cbn in *. destruct (D Hd rid h He) as [o Ho]. rewrite Q in Ho.
+      destruct Ho as [X|X]; [discriminate | eauto].
 Qed.
 
 Lemma quiet_step s x : Quiet s -> Quiet (step s x).
@@ -527,13 +550,16 @@ Proof.
   - rewrite fail_step_closed. destruct (frame_fail s h o) as [E1 [E2 _]]. intros Hd. rewrite E2. apply Q. congruence.
   - rewrite finish_step_closed. unfold finish_closed. destruct (disconnected s) eqn:Hd; auto.
     intros X. cbn in X. discriminate.
-  - destruct (evq s) as [|[h o] q] eqn:E; auto. rewrite fail_step_closed.
-    destruct (frame_fail (set_evq s q) h o) as [E1 [E2 _]]. intros Hd. rewrite E1 in Hd. cbn in Hd.
-    specialize (Q Hd). congruence.
+  - intros Hd h o X. cbn in *. apply in_app_iff in X as [X|[X|[]]]; [apply (Q Hd h o X) | discriminate].
+  - destruct (turn_cases s) as [[_ ->]|[[h [o [q [b [E ->]]]]]|[r [q [b [E ->]]]]]].
+    + exact Q.
+    + destruct (frame_fail (set_batch (set_evq s q) b) h o) as [E1 [E2 _]]. intros Hd. rewrite E1 in Hd. cbn in Hd.
+      exfalso. apply (Q Hd h o). rewrite E. left. reflexivity.
+    + intros Hd h o X. cbn in *. apply (Q Hd h o). rewrite E. right. exact X.
 Qed.
 
 Lemma inv_init : Inv init.
-Proof. split; [apply inv0_init | split; [intros H; discriminate | intros _; reflexivity]]. Qed.
+Proof. split; [apply inv0_init | split; [intros H; discriminate | intros _ h o X; exact X]]. Qed.
 
 Lemma inv_step s x : Inv s -> Inv (step s x).
 Proof. intros [I [D Q]]. split; [apply inv0_step | split; [apply disc_step | apply quiet_step]]; auto. Qed.
@@ -602,8 +628,11 @@ Proof. intros ops. apply drained_state. apply inv_run. Qed.
 Lemma turn_frame s : disconnected (step s Turn) = disconnected s /\ evq (step s Turn) = tl (evq s) /\
   List.length (calls (step s Turn)) = List.length (calls s).
 Proof.
-  cbn [step]. destruct (evq s) as [|[h o] q] eqn:Q; [rewrite Q; auto|]. rewrite fail_step_closed.
-  destruct (frame_fail (set_evq s q) h o) as [E1 [E2 [_ [E4 _]]]]. rewrite E1, E2, E4. auto.
+  change (step s Turn) with (turn_step s).
+  destruct (turn_cases s) as [[Q ->]|[[h [o [q [b [Q ->]]]]]|[r [q [b [Q ->]]]]]]; rewrite Q.
+  - cbn. rewrite Q. auto.
+  - destruct (frame_fail (set_batch (set_evq s q) b) h o) as [E1 [E2 [_ [E4 _]]]]. rewrite E1, E2, E4. auto.
+  - auto.
 Qed.
 
 Lemma turns_drain n : forall s, disconnected (run_from s (repeat Turn n)) = disconnected s /\
@@ -698,7 +727,11 @@ Proof.
   - rewrite complete_step_closed; apply complete_extends; auto.
   - rewrite fail_step_closed; apply fail_extends; auto.
   - rewrite finish_step_closed. unfold finish_closed. destruct (disconnected s); exists c; split; auto using extends_refl.
-  - destruct (evq s) as [|[h' o] q]; [eauto using extends_refl|]. rewrite fail_step_closed. apply fail_extends. exact G.
+  - exists c. split; auto using extends_refl.
+  - destruct (turn_cases s) as [[_ ->]|[[h' [o [q [b [_ ->]]]]]|[r [q [b [_ ->]]]]]].
+    + exists c. split; auto using extends_refl.
+    + apply fail_extends. exact G.
+    + exists c. split; auto using extends_refl.
 Qed.
 
 Lemma run_from_extends ops : forall s h c, get s h = Some c ->
@@ -798,8 +831,9 @@ Proof.
   - rewrite complete_step_closed. destruct (HC h) as [E|[E [c R]]]; auto. right. split; auto. exists h, c. tauto.
   - rewrite fail_step_closed. left. apply HF. auto.
   - rewrite finish_step_closed. unfold finish_closed. destruct (disconnected s); auto.
-  - destruct (evq s) as [|[h o] q]; auto. rewrite fail_step_closed. left.
-    rewrite HF by (apply inv0_set_evq; auto). reflexivity.
+  - left. reflexivity.
+  - left. destruct (turn_cases s) as [[_ ->]|[[h [o [q [b [_ ->]]]]]|[r [q [b [_ ->]]]]]]; try reflexivity.
+    rewrite HF by (apply inv0_set_batch; apply inv0_set_evq; auto). reflexivity.
 Qed.
 
 (* ---------- 6. a callRemote on a dead connection fails at once with DeadReferenceError and is never registered *)
@@ -852,19 +886,24 @@ Proof.
 Qed.
 
 Definition outP (h : nat) (o : outcome) (s : st) : Prop :=
-  (forall o', In (h, o') (evq s) -> o' = o) /\
+  (forall o', In (EFail h o') (evq s) -> o' = o) /\
   exists c, get s h = Some c /\ (c_fires c = [] \/ c_fires c = [o]).
 
 Lemma outP_turn h o s : Inv0 s -> outP h o s -> outP h o (step s Turn).
 Proof.
-  intros I [Q [c [G F]]]. cbn [step]. destruct (evq s) as [|[h' o'] q] eqn:E; [split; [rewrite E|]; eauto|].
-  rewrite fail_step_closed.
-  destruct (frame_fail (set_evq s q) h' o') as [_ [E2 _]].
-  split.
-  - intros o'' H. rewrite E2 in H. cbn in H. apply Q. right. exact H.
-  - destruct (fail_closed_get (set_evq s q) h' o' h c (inv0_set_evq _ _ I) G) as [X|[-> [F0 [c' [X Y]]]]].
+  intros I [Q [c [G F]]]. change (step s Turn) with (turn_step s).
+  destruct (turn_cases s) as [[E ->]|[[h' [o' [q [b [E ->]]]]]|[r [q [b [E ->]]]]]].
+  - split; eauto.
+  - destruct (frame_fail (set_batch (set_evq s q) b) h' o') as [_ [E2 _]].
+    split.
+    + intros o'' H. rewrite E2 in H. cbn in H. apply Q. rewrite E. right. exact H.
+    + destruct (fail_closed_get (set_batch (set_evq s q) b) h' o' h c (inv0_set_batch _ _ (inv0_set_evq _ _ I)) G)
+        as [X|[-> [F0 [c' [X Y]]]]].
+      * exists c. auto.
+      * exists c'. split; auto. right. rewrite Y. f_equal. apply Q. rewrite E. left. reflexivity.
+  - split.
+    + intros o'' H. cbn in H. apply Q. rewrite E. right. exact H.
     + exists c. auto.
-    + exists c'. split; auto. right. rewrite Y. f_equal. apply Q. left. reflexivity.
 Qed.
 
 Lemma outP_turns h o n : forall s, Inv s -> outP h o s -> outP h o (run_from s (repeat Turn n)).
@@ -888,7 +927,8 @@ Proof.
   { unfold s1, run. rewrite fold_left_app. cbn [fold_left step]. apply finish_step_closed. }
   assert (P1 : outP h (reason_outcome r) s1).
   { rewrite S1. unfold finish_closed. rewrite Hd. split.
-    - intros o' H. cbn in H. rewrite (Qt Hd) in H. cbn in H. apply in_map_iff in H as [e [E _]]. congruence.
+    - intros o' H. cbn in H. apply in_app_iff in H as [H|H]; [exfalso; exact (Qt Hd h o' H)|].
+      apply in_map_iff in H as [e [E _]]. congruence.
     - exists c. split; auto. }
   assert (I1 : Inv s1) by apply inv_run.
   pose proof (outP_turns h (reason_outcome r) (List.length (evq s1)) s1 I1 P1) as [_ [c' [G' F']]]. fold s2 in G'.
@@ -922,6 +962,26 @@ Example ex_unrelated_reason :
   map (fun c => map ocode (c_fires c)) (calls (run ops)) = [[7]].
 Proof. vm_compute. reflexivity. Qed.
 
+(* ---------- 8. the eventual queue: an event that raises affects nothing but itself *)
+Theorem turn_runs_exactly_one_event : forall ops,
+  evq (step (run ops) Turn) = tl (evq (run ops)) /\ disconnected (step (run ops) Turn) = disconnected (run ops).
+Proof. intros ops. destruct (turn_frame (run ops)) as [A [B _]]. auto. Qed.
+
+Theorem foreign_event_changes_no_request : forall ops r q,
+  evq (run ops) = EForeign r :: q ->
+  calls (step (run ops) Turn) = calls (run ops) /\ table (step (run ops) Turn) = table (run ops) /\
+  evq (step (run ops) Turn) = q.
+Proof.
+  intros ops r q E. change (step (run ops) Turn) with (turn_step (run ops)).
+  destruct (turn_cases (run ops)) as [[Q _]|[[h [o [q' [b [Q _]]]]]|[r' [q' [b [Q ->]]]]]]; try congruence.
+  rewrite E in Q. inversion Q; subst. auto.
+Qed.
+
+Example ex_raising_bystander :
+  let ops := [Call KTwoWay; Call KTwoWay; Enqueue true; Finish (RListed ConnectionLostC); Enqueue true; Turn; Turn; Turn; Turn] in
+  map (fun c => map ocode (c_fires c)) (calls (run ops)) = [[4]; [4]] /\ evq (run ops) = [] /\ table (run ops) = [].
+Proof. vm_compute. repeat split; reflexivity. Qed.
+
 (* ---------- non-vacuity *)
 Example ex_trace :
   let ops := [Call KTwoWay; Call KTwoWay; Call KOneWay; Call KTwoWay; Call KLocalReject;
@@ -937,7 +997,7 @@ Proof. vm_compute. split; reflexivity. Qed.
 
 Example ex_pending_after_loss_before_turn :
   let ops := [Call KTwoWay; Call KTwoWay; Answer 2; Finish (RSubclass ConnectionLostC)] in
-  disconnected (run ops) = true /\ map fst (table (run ops)) = [1] /\ evq (run ops) = [(0%nat, ODeadRef)].
+  disconnected (run ops) = true /\ map fst (table (run ops)) = [1] /\ evq (run ops) = [EFail 0 ODeadRef].
 Proof. vm_compute. repeat split; reflexivity. Qed.
 
 Example ex_first_outcome :
